@@ -202,8 +202,6 @@ class CompModel(object):
         else:
             if not (os.path.exists(fcbin) and os.path.exists(fch)):
                 return None, None
-            if name == "decompress_file" and os.path.exists(fbin):
-                return None, None           # mtscomp refuses to overwrite an existing output: not an enabled event
             target = fcbin
         steps = [(mtscomp.Writer, "_compress_chunk", "compress-chunk"), (mtscomp.Reader, "_decompress_chunk", "decompress-chunk"),
                  (mtscomp, "check", "post-check")]
@@ -280,7 +278,13 @@ class CompModel(object):
             if event["name"] == "decompress_to_scratch" and not cbin_ok:
                 v.append(("source-touched:scratch", "%s: the compressed source is gone or modified after an interrupted decompression to scratch" % ctx))
         else:
-            if obs["exc"] is not None:
+            refused = obs["exc"] is not None and event["name"] == "decompress_file" and (STEM + ".bin") in pre_snap
+            if refused:
+                # decompressing onto an existing .bin may be refused (mtscomp does not overwrite) - then nothing may have changed
+                if histories.canon(histories.snapshot(root)) != histories.canon(pre_snap):
+                    v.append(("event:refused-but-changed", "%s was refused (%s) but changed the directory: %s -> %s"
+                              % (ctx, obs["exc"], sorted(pre_snap), sorted(os.listdir(root)))))
+            elif obs["exc"] is not None:
                 v.append(("event:exc:%s" % event["name"], "%s raised %s (files before: %s)" % (ctx, obs["exc"], sorted(k for k in pre_snap))))
             else:
                 out = os.path.join(root, obs["status"])
@@ -343,8 +347,9 @@ CHECK = {
         "compression chunk = 8 samples; contents: separating, alternating int16 extremes, zero",
         "fault part: 25 samples x 3 channels (4 chunks), histories of length <= 4 with <= 2 crashes (thorough: 6 / 3); deviation points = every filesystem mutation below the "
         "directory + every per-chunk (de)compression call + mtscomp's post-check; mtscomp single-threaded",
-        "decompress_file onto an existing .bin is refused by mtscomp and is not an enabled event; in-place decompression writes straight to the final name "
-        "(the property promises atomic publication for compression and decompression to scratch only)",
+        "decompress_file onto an existing .bin may be refused (mtscomp does not overwrite): then the directory must be unchanged; in-place decompression writes "
+        "straight to the final name (the property promises atomic publication for compression and decompression to scratch only), so a partial .bin can exist - "
+        "the compressed source must then survive",
     ],
     "clauses": [
         Clause("transparent", "cbin reader == bin reader for every slice; compress+decompress = identity", cases=trans_cases, check=trans_check),
